@@ -46,6 +46,13 @@ Theorem C05_raw_order_is_returned_order :
     tlt (p1, r1) (p2, r2) -> tlt (p1, differentiate r1 b s1) (p2, differentiate r2 b s2).
 Proof. exact raw_lt_diff. Qed.
 
+(* the client (client/client.go: firstLogical = addLogical(logical, -count+1, bits); i-th = addLogical(first, i, bits))
+   hands out exactly the values of the server's range, suffix included *)
+Theorem C05_client_batch_values :
+  forall raw count b sfx i, 0 <= b ->
+    add_logical (add_logical (differentiate raw b sfx) (- count + 1) b) i b = differentiate (raw - count + 1 + i) b sfx.
+Proof. exact client_batch_value. Qed.
+
 (* timestamps of different allocators are never equal, as long as both use the same suffix width *)
 Theorem C05_cross_allocator_distinct_partial :
   forall r1 r2 b s1 s2, 0 <= b -> 0 <= s1 < 2 ^ b -> 0 <= s2 < 2 ^ b -> s1 <> s2 ->
@@ -92,6 +99,7 @@ Print Assumptions C05_global_above_completed_locals.
 Print Assumptions C05_local_after_global_above.
 Print Assumptions C05_global_ranges_ordered.
 Print Assumptions C05_raw_order_is_returned_order.
+Print Assumptions C05_client_batch_values.
 Print Assumptions C05_cross_allocator_distinct_partial.
 Print Assumptions C05_cross_allocator_distinct_full_refuted.
 Print Assumptions C05_bits_cover_suffixes.
